@@ -93,7 +93,9 @@ def validate (u : Upd Mask) (_msg : Msg) : Option Code :=
       if !(isValid m) then some .invalidArgument
       else match u.writable with
         | none => none
-        | some w => if (intersect w m).length ≠ m.length then some .invalidArgument else none
+        | some w =>
+          -- `isWritablePath` for every update path (repo 4d3ae38; duplicates of a writable path pass)
+          if !(m.all (w.contains ·)) then some .invalidArgument else none
   match updErr with
   | some e => some e
   | none =>
@@ -103,7 +105,12 @@ def validate (u : Upd Mask) (_msg : Msg) : Option Code :=
 
 /-- `FieldUpdater.Merge(dst, src)` -/
 def merge (u : Upd Mask) (dst src : Msg) : Msg :=
-  if (match u.writable with | some w => w.isEmpty | none => false) then dst  -- nothing is writable
+  if (match u.writable with | some w => w.isEmpty | none => false) then
+    -- nothing is writable: only the reset mask applies, unless the update mask is empty (repo 70b9b73)
+    if (match u.update with | some m => m.isEmpty | none => false) then dst
+    else match u.reset with
+      | some r => nmPrune r dst
+      | none => dst
   else
     -- only allow writing writable fields by resetting non-writable fields in src
     let src := match u.writable with | some w => nmFilter w src | none => src
